@@ -769,6 +769,76 @@ impl<C: Config> Engine<C> {
     }
 }
 
+/// Read-only dump of what the engine has recorded about one query
+/// (verification hook, only with `--cfg qbice_verif`).
+#[cfg(qbice_verif)]
+#[derive(Debug, Clone, Default)]
+pub struct VerifNodeDump {
+    /// `last_verified` timestamp, if the query was ever computed.
+    pub last_verified: Option<u64>,
+    /// The current global timestamp.
+    pub current_timestamp: u64,
+    /// Recorded callees, in recorded order (groups flattened).
+    pub forward: Vec<QueryID>,
+    /// Recorded callees whose edge is marked dirty.
+    pub dirty: Vec<QueryID>,
+    /// Recorded transitive firewall callees.
+    pub transitive_firewall_callees: Vec<QueryID>,
+    /// Recorded callers.
+    pub backward: Vec<QueryID>,
+    /// Timestamp of a pending backward projection, if any.
+    pub pending_backward_projection: Option<u64>,
+}
+
+#[cfg(qbice_verif)]
+impl<C: Config> Engine<C> {
+    /// Dumps the recorded state of `query_id` without changing anything.
+    /// Must not be called while queries are running.
+    pub async fn verif_dump(&self, query_id: &QueryID) -> VerifNodeDump {
+        let db = &self.computation_graph.database;
+
+        let forward = db
+            .forward_edge_order
+            .get(query_id)
+            .await
+            .map(|x| x.iter_all_callees().collect::<Vec<_>>())
+            .unwrap_or_default();
+
+        let mut dirty = Vec::new();
+        for callee in &forward {
+            if self.is_edge_dirty(*query_id, *callee).await {
+                dirty.push(*callee);
+            }
+        }
+
+        VerifNodeDump {
+            last_verified: db.last_verified.get(query_id).await.map(|x| x.0.0),
+            current_timestamp: unsafe {
+                self.get_current_timestamp_unchecked().0
+            },
+            forward,
+            dirty,
+            transitive_firewall_callees: db
+                .node_info
+                .get(query_id)
+                .await
+                .map(|x| {
+                    x.transitive_firewall_callees()
+                        .iter()
+                        .copied()
+                        .collect::<Vec<_>>()
+                })
+                .unwrap_or_default(),
+            backward: db.backward_edges.get(query_id).await.collect(),
+            pending_backward_projection: db
+                .pending_backward_projection
+                .get(query_id)
+                .await
+                .map(|x| x.0.0),
+        }
+    }
+}
+
 pub(crate) struct QueryDebug {
     pub type_name: &'static str,
     pub input: String,
